@@ -19,7 +19,8 @@ import vlib
 HERE = os.path.dirname(os.path.abspath(__file__))
 TOPO = ('star', 'chain', 'binomial')
 FINDINGS = {1: 'C13-chain-relay-missing-output', 2: 'C13-binomial-relay-missing-output'}
-ENV = dict(os.environ, OMPI_ALLOW_RUN_AS_ROOT='1', OMPI_ALLOW_RUN_AS_ROOT_CONFIRM='1')
+ENV = dict(os.environ, OMPI_ALLOW_RUN_AS_ROOT='1', OMPI_ALLOW_RUN_AS_ROOT_CONFIRM='1', PARSEC_MCA_bind_threads='0',
+           PARSEC_MCA_runtime_comm_thread_yield='2')
 
 
 def build(ctx):
